@@ -84,6 +84,13 @@ def di_shapes(tier):
         for m10, hm0 in [("v", "v"), ("v", "r"), ("r", "v")]:
             t1 = ctor_op(1, "P", in_code("K", m10), "s", "request_scoped", None)
             shapes.append([t0, t1, {"k": "route", "c": handler_id(0, [in_code("K", hm0), "PR", "0"])}])
+    # DI-B: build-time graphs (ApplicationState::new): two singletons T1, T2 fed by one transient T0
+    # (one instance per injection site there too), T2 optionally also borrowing T1
+    for (f0, cl0), m10, m20, m21 in itertools.product([("P", None), ("K", "clone_if_necessary")], ["v", "r"], ["v", "r"], [None, "r"]):
+        t0 = ctor_op(0, f0, "0", "s", "transient", cl0)
+        t1 = ctor_op(1, "P", in_code(f0, m10), "s", "singleton", None)
+        t2 = ctor_op(2, "P", f"{in_code(f0, m20)}_{in_code('P', m21)}", "s", "singleton", None)
+        shapes.append([t0, t1, t2, {"k": "route", "c": handler_id(0, ["0", "PR", "PR"])}])
     if tier == "thorough":
         modes = [None, "v", "r"]
         for (f0, cl0), (f1, cl1) in itertools.product(FLAV_CL, [("P", None), ("K", "clone_if_necessary")]):
@@ -361,6 +368,34 @@ def err_shapes(tier):
             # two levels: the handlers of the middle level sit between root and the failing components
             shapes.append(eh_set(root_eh, 1) + [{"k": "nest", "bp": {"ops": eh_set(nested_eh, 2) + obs + [
                 {"k": "nest", "bp": {"ops": inner[len(eh_set(nested_eh, 2)):]}}]}}])
+    # ERR-OBS3: three error observers in scope of the failing route, registered on its own blueprint and / or
+    # inherited from the parent (split a + b = 3), with the framework default, the user fallback and specific
+    # error handlers; ERR-OBSLATE: observers the parent registers AFTER `nest` (they must not reach the
+    # routes of the nested blueprint), alone and next to observers registered before / inside
+    def fall_inner(with_pre):
+        inner = [ctor_op(0, "P", "0", "f", "request_scoped", None)]
+        if with_pre:
+            inner.append({"k": "pre", "c": mw_id("pre", 1, True)})
+        inner.append({"k": "route", "c": handler_id(0, ["PR", "0", "0"], True)})
+        return inner
+
+    o3 = [{"k": "observer", "c": f"OBS{j + 1}__0"} for j in range(3)]
+    for ehm in ("default", "fallback", "specific"):
+        for a in (3, 2, 1, 0):
+            for with_pre in ((False, True) if tier == "thorough" or a in (3, 1) else (False,)):
+                if a == 3:
+                    shapes.append(eh_ops(ehm) + o3 + fall_inner(with_pre))
+                else:
+                    shapes.append(eh_ops(ehm) + o3[:a] + [{"k": "nest", "bp": {"ops": o3[a:] + fall_inner(with_pre)}}])
+    for ehm in ("default", "specific"):
+        for before, inside in ((0, 0), (1, 0), (0, 1), (1, 1)):
+            ops = eh_ops(ehm) + o3[:before]
+            ops.append({"k": "nest", "bp": {"ops": o3[1:1 + inside] + fall_inner(False)}})
+            ops.append(o3[2])  # registered after the nest
+            if tier == "thorough" or (before, inside) != (1, 1):
+                shapes.append(ops)
+            # ... and a route of the parent after it, which the late observer does cover
+            shapes.append(ops + [{"k": "route", "c": handler_id(1, ["0", "0", "0"], True)}])
     # ERR-SHARE2: a request-scoped value whose only users are the handler and the error observer /
     # error handler of a fallible middleware that does NOT take it itself (the error branch lives in
     # another call graph than the other user; the value must still be built once per request)
